@@ -12,7 +12,7 @@ PROPS = {}
 PROPS["C18"] = {
     "level": "fault_enumeration",
     "technique": "model-based stateful PBT (rapid) vs a map; crash-point x lost-write enumeration of a recorded disk trace with a prefix oracle; porcupine linearizability oracle over generated concurrent programs",
-    "level_text": "Generated put/get programs are judged against a map after every step; every crash point of each recorded disk trace (quick: up to 400 per program, thorough: all) times the lost-write variants, plus second crashes during recovery, is recovered with the real code and must equal a prefix containing all acknowledged puts; generated concurrent programs must be linearizable (keys may already hold values on the device when the store is opened, puts draw half of their values from the same small pool so that a put can meet its own value, and in 2/3 of the programs one client is held at one of its device accesses until the others have finished). A concurrent crash unit runs 1-4 clients with small puts on keys of their own next to 1-2 callers whose 520-pair puts the journal refuses: at sampled acknowledgements (and at every one during which the journal header was not written) the device image of that moment, un-barriered writes lost, is recovered and must hold the acknowledged values. Fault enumeration is the right level because the property quantifies over crash points, which are finite per trace and enumerated completely.",
+    "level_text": "Generated put/get programs are judged against a map after every step; every crash point of each recorded disk trace (quick: up to 400 per program, thorough: all) times the lost-write variants, plus second crashes during recovery, is recovered with the real code and must equal a prefix containing all acknowledged puts; generated concurrent programs must be linearizable (keys may already hold values on the device when the store is opened, puts draw half of their values from the same small pool so that a put can meet its own value, and in 2/3 of the programs one client is held at one of its device accesses until the others have finished). A concurrent crash unit runs 1-4 clients with small puts on keys of their own next to 1-2 callers whose 520-pair puts the journal refuses: at sampled acknowledgements (and at every one during which the journal header was not written) the device image of that moment, un-barriered writes lost, is recovered and must hold the acknowledged values. Fault enumeration is the right level because the property quantifies over crash points, which are finite per trace and enumerated completely. Keys at and just outside both ends of the range are mixed into multi-puts at every position: whether such a put panics (the documented contract), returns false or is accepted, it must be installed completely or not at all, and stay so after the journal has wrapped (640 more blocks) and the store was reopened.",
     "level_note": "Sampled: programs and goroutine schedules. Enumerated per program: crash points and loss variants as described. Trusts the disk contract (atomic block writes, barriers) and porcupine.",
     "rule": ("rapid-generated multi-put/get programs on kvs.KVS over a recording disk. Units: sequential state machine vs a map "
              "(non-trivial: >=2 puts and a reopen or an overwritten key); oversized puts around the 511-block journal limit; "
@@ -26,6 +26,7 @@ PROPS["C18"] = {
     "units": [
         {"test": "^TestC18Seq$", "quick": {"checks": 300, "shards": 2}, "thorough": {"checks": 5000, "shards": 4}},
         {"test": "^TestC18BigPut$", "quick": {"checks": 60}, "thorough": {"checks": 600, "shards": 2}},
+        {"test": "^TestC18EdgeKeys$", "quick": {"checks": 80, "shards": 2}, "thorough": {"checks": 3000, "shards": 4}},
         {"test": "^TestC18Crash$", "quick": {"checks": 6, "shards": 2, "procs": 8}, "thorough": {"checks": 150, "shards": 4, "procs": 4}},
         {"test": "^TestC18Conc$", "quick": {"checks": 400, "shards": 2}, "thorough": {"checks": 10000, "shards": 4}},
         {"test": "^TestC18ConcCrash$", "quick": {"checks": 60, "shards": 4}, "thorough": {"checks": 1500, "shards": 8}},
